@@ -3,7 +3,15 @@ NOTES = ("Every check = (1) full Coq build + Print Assumptions of the property's
          "driving the real code, with implementation-side oracles, (3) the same inputs evaluated by the Gallina model inside coqc, (4) diff. "
          "Repairs of genuine defects are 'fix:' commits in /repo, listed in known-findings.txt.")
 NOT_YET = {}
+PKT_NOTE = ("Trusted: Coq kernel; the hand model of the packet keeper / msg server (tied to the Go code by the correspondence run: accept/reject, relayer-visible events and "
+            "the full packet-store dump after every step, on real SimApps with real IAVL proofs); honest-header premise for light clients; sha256 as an abstract function.")
 META = {
+    "C02": {"text": "Theorem over ALL operation sequences of a chain (any packets, proofs, heights, client contents, cleans, replays, any application): the destination application processes each (source,destination,sequence) at most once; plus completeness lemmas (deliverable packet accepted at destination / relay). Invariant: delivered => receipt present or seq <= clean point; clean point monotone; receipts removed only below the new clean point. Model tied to the code by directed duplicate/replay/clean families and seeded random histories on three real chains.",
+            "note": PKT_NOTE},
+    "C09": {"text": "Theorems: for every history the successful sends on a pair carry consecutive sequences from the pair's counter, the counter moves only by a successful own send, a successful send changes exactly the counter and one commitment (value H(data)) and announces the packet, a failing operation leaves the state untouched, each failing send kind of the property fails. Tied to the code by every failing send kind interleaved with good sends and inbound traffic + random histories.",
+            "note": PKT_NOTE},
+    "C10": {"text": "Theorems: source-side clean accepted iff clean < N <= maxAck and no commitment in [clean,N] and next hop known; receive-clean needs a verified proof of the source's clean point; exact effect (receipts/acks in (clean,N] removed, clean point := N, nothing else); clean point monotone over all histories; every packet/ack with seq <= N refused in every later state; receipts persist until cleaned. Tied to the code by directed clean families (source, destination, relay; around unacknowledged packets) + random histories.",
+            "note": PKT_NOTE},
     "C12": {
         "text": "Theorems for all byte strings: rule-set acceptance iff every rule is three comma-separated fields each identifier-or-'*'; Authenticate iff some stored rule matches field-wise; literal fields match only the identical string. The model is tied to SetRoutingRules/Authenticate by running both on ~1500 (quick) / 40000 (thorough) seeded (rules, triple) inputs weighted to regexp metacharacters.",
         "note": "Trusted: Coq kernel, the hand model of keeper.go/RulePattern, the Go harness and orchestrator. JSON encoding of the stored list is not modelled.",
